@@ -481,7 +481,7 @@ class Component(CaselessDict):
                             parsed_components = [factory(factory.from_ical(val, params['TZID'])) for val in vals]
                         else:
                             parsed_components = [factory(factory.from_ical(val)) for val in vals]
-                    elif uname in datetime_names and 'TZID' in params:
+                    elif 'TZID' in params and (uname in datetime_names or factory in (vDDDTypes, vDDDLists)):
                         parsed_components = [factory(factory.from_ical(vals, params['TZID']))]
                     else:
                         parsed_components = [factory(factory.from_ical(vals))]
